@@ -76,6 +76,13 @@ func (l *Link) Take() []Frame {
 	return o
 }
 
+// PutBack returns frames to the front of the pending list (for callers that only wanted some).
+func (l *Link) PutBack(fs []Frame) {
+	l.mu.Lock()
+	l.out = append(append([]Frame{}, fs...), l.out...)
+	l.mu.Unlock()
+}
+
 // WaitFrames waits until at least n frames are pending or the timeout expires, then takes them.
 func (l *Link) WaitFrames(n int, timeout time.Duration) []Frame {
 	deadline := time.Now().Add(timeout)
